@@ -128,17 +128,44 @@ def parseStep (s : String) : Option Step :=
     some { line := ← hexDecode l, bit := out, obs := obs }
   | _ => none
 
-def runModel (pathOk : Bool) (gs : Bool) (o0 : Obs) (steps : List Step) : String := Id.run do
+def shapeName : Reply → String
+  | .ok .null => "ok:null" | .ok .status => "ok:status" | .ok .describe => "ok:describe"
+  | .ok .lockstate => "ok:lockstate" | .ok .unencodable => "ok:unencodable"
+  | .error => "error" | .notJson => "nojson" | .panic _ => "panic" | .deadlock => "deadlock"
+  | .evaluating => "evaluating"
+
+/-- which branch of the model the LAST command took: `<command>/<argument-count test rejects |
+    reply and shape>/<thread addressed: none, running, suspended>` -/
+def branchOf (s : DbgState) (line : Str) (r : Reply) : String :=
+  match fields line with
+  | [] => "empty-line"
+  | c :: args =>
+    match lookupCmd c with
+    | none => "unknown-command"
+    | some cmd =>
+      if cmd.rejects args.length then cmd.name ++ "/argument-count"
+      else
+        let th := match args.head? >>= assertNumParam with
+          | none => "-"
+          | some tid => match s.istates.lookup tid, s.stacks.lookup tid with
+            | some is, _ => if is.running then "running" else if is.hasErr then "suspended-on-error" else "suspended"
+            | none, some _ => "not-interrogated"
+            | none, none => "no-such-thread"
+        cmd.name ++ "/" ++ shapeName r ++ "/" ++ th
+
+def runModel (pathOk : Bool) (gs : Bool) (o0 : Obs) (steps : List Step) : String × String := Id.run do
   let mut s := init gs []
   match sync s o0 true with
-  | .error e => return e ++ " (initial state)"
+  | .error e => return (e ++ " (initial state)", "-")
   | .ok s' => s := s'
   let mut classes : List String := []
+  let mut branch := "-"
   let mut k := 0
   for st in steps do
     if st.line.head? != some 33 then
       let env : Env := { eval := fun _ => st.bit, setPathOk := fun _ _ => pathOk }
       let (s', r) := handle env s st.line
+      branch := branchOf s st.line r
       s := s'
       -- Scope.SetValue on a container path is C05's domain: ok and error are not told apart
       let dotted := match fields st.line with
@@ -150,12 +177,12 @@ def runModel (pathOk : Bool) (gs : Bool) (o0 : Obs) (steps : List Step) : String
     | none => pure ()
     | some o =>
       match sync s o with
-      | .error e => return e ++ s!" (step {k})"
+      | .error e => return (e ++ s!" (step {k})", branch)
       | .ok s' => s := s'
     k := k + 1
   let env : Env := { eval := fun _ => .error, setPathOk := fun _ _ => pathOk }
   let (_, r) := handle env s (str "status")
-  return (if classes.isEmpty then "-" else ",".intercalate classes) ++ " " ++ className r
+  return ((if classes.isEmpty then "-" else ",".intercalate classes) ++ " " ++ className r, branch)
 
 /-- the concurrent kind: all ten commands from three goroutines while ECAL threads run. The
     model has no concurrent semantics: the prediction is only that no reply is a panic or an
@@ -182,17 +209,17 @@ def runConc : String := Id.run do
 def runCase (payload : String) : String :=
   match payload.splitOn " " with
   | "conc" :: _ => "R:" ++ runConc ++ "\tnt=1"
+  | "telnet" :: _ => "R:ok\tnt=1"   -- robustness kind (the CLI tool's server): no crash, no hang, every reply a JSON document
   | _ :: _ :: "?" :: _ => "RECORD-TIMEOUT"
-  | _scn :: gs :: o0 :: steps =>
+  | scn :: gs :: o0 :: steps =>
     match parseObs o0, steps.mapM parseStep with
     | some o0, some steps =>
-      let a := runModel true (gs = "1") o0 steps
-      let nt := match steps.getLast? with
-        | some st => match (fields st.line).head? with
-          | some c => (lookupCmd c).isSome
-          | none => false
-        | none => false
-      "R:" ++ a ++ (if nt then "\tnt=1" else "")
+      let (a, branch) := runModel true (gs = "1") o0 steps
+      -- non-trivial: the last command got past its argument-count test (it reached the debugger)
+      let nt := branch != "-" && branch != "empty-line" && branch != "unknown-command" &&
+        !branch.endsWith "/argument-count"
+      let scn := if gs = "1" then scn else scn ++ "(no-global-scope)"
+      "R:" ++ a ++ (if nt then "\tnt=1" else "") ++ "\tbr=" ++ scn ++ "/" ++ branch
     | _, _ => "bad-payload"
   | _ => "bad-payload"
 
